@@ -15,12 +15,21 @@ package admin
 //     outputs must be equal after replacing the scratch prefix. Any dependence of a sandboxed
 //     program's output on the outside world is a read/list/stat leak. Canary tokens must also never
 //     appear in the output.
+//   * LISTING side (directed, first on every layout): directories INSIDE the root whose ENTRIES are
+//     symlinks leading outside (files, directories, chains, names that exist in one world only) are
+//     listed by every runtime function that returns metadata or content of directory entries
+//     (io.ReadDir: name, type, mode, size, modification time; io.Expand where its walk is finite), and
+//     the entries themselves are handed to os.Stat / io.ReadDir / os.ReadFile / os.Open. No returned
+//     field may depend on anything outside the root: equal output in the twin layout (times aside),
+//     and equal output, times included, in the SAME layout before and after the outside world is
+//     changed in place (other sizes, modes, times, types; targets removed / created).
 
 import (
 	"fmt"
 	"math/rand"
 	"os"
 	"path/filepath"
+	"regexp"
 	"strconv"
 	"strings"
 	"testing"
@@ -62,6 +71,46 @@ var c26Progs = []c26Prog{
 	{"filepath.Abs", `s, e := filepath.Abs(%P); fmt.Println("AB", s, e)`, false},
 	{"sql.Open", `d, e := sql.Open("sqlite3", %P); fmt.Println("SQ", e == nil); if e == nil { d.Close() }`, true},
 	{"os.CreateTemp", `f, e := os.CreateTemp(%P, "ct*"); fmt.Println("CT", e == nil); if e == nil { f.Close() }`, true},
+}
+
+// Listing programs. %P = quoted path, %T = a time expression's layout argument. The modification
+// time is printed as one trailing " T=<stamp>" token so that it can be dropped for the twin
+// comparison (the twins' insides are created at different instants).
+const c26Stamp = `"2006-01-02T15:04:05.000000000"`
+
+var c26ListDir = []c26Prog{
+	{"io.ReadDir", `d, e := io.ReadDir(%P); fmt.Println("RD", e, len(d)); for _, x := range d { fmt.Println(x.Name, x.IsDirectory, x.Mode, x.Size, "T=" + x.Modified.Format(%T)) }`, false},
+	{"io.Expand", `l, e := io.Expand(%P); fmt.Println("EX1", l, e)`, false},
+	{"io.Expand", `l, e := io.Expand(%P, ".json"); fmt.Println("EX", l, e)`, false},
+}
+
+var c26ListChild = []c26Prog{
+	{"os.Stat", `i, e := os.Stat(%P); if e == nil { fmt.Println("S", i.Name, i.Size, i.Mode, i.IsDir, "T=" + i.ModTime.Format(%T)) } else { fmt.Println("S", e) }`, false},
+	{"io.ReadDir", `d, e := io.ReadDir(%P); fmt.Println("RD", e, len(d)); for _, x := range d { fmt.Println(x.Name, x.IsDirectory, x.Mode, x.Size, "T=" + x.Modified.Format(%T)) }`, false},
+	{"os.ReadFile", `b, e := os.ReadFile(%P); fmt.Println("R", len(b), string(b), e)`, false},
+	{"os.Open", `f, e := os.Open(%P); if e == nil { b := make([]byte, 40); n, e2 := f.Read(b); fmt.Println("O", n, string(b), e2); f.Close() } else { fmt.Println("O", e) }`, false},
+}
+
+var c26StampRE = regexp.MustCompile(` T=\S+`)
+
+// c26EscapingEntries counts the entries of the physical directory dir that are symlinks the kernel
+// resolves to something that exists outside the root (measured, for the coverage counters).
+func c26EscapingEntries(l *verifh.C26Layout, dir string) (links []string, escaping int) {
+	ents, _ := os.ReadDir(dir)
+
+	for _, e := range ents {
+		if e.Type()&os.ModeSymlink == 0 {
+			continue
+		}
+
+		links = append(links, e.Name())
+
+		if p, err := filepath.EvalSymlinks(filepath.Join(dir, e.Name())); err == nil && !l.C26PhysWithin(p) {
+			escaping++
+		}
+	}
+
+	return links, escaping
 }
 
 // c26Ext builds the hostile second argument of io.Expand: the extension is appended to the
@@ -164,6 +213,110 @@ func TestVerifC26E2E(t *testing.T) {
 		la := verifh.C26NewLayout(rand.New(rand.NewSource(seed)), scratch, 0)
 		lb := verifh.C26NewLayout(rand.New(rand.NewSource(seed)), scratch, 1)
 		stats.Inc(fmt.Sprintf("layout_variant_%d", la.Variant))
+
+		// ---- directed listing phase (on the pristine layout) ----
+		type listRun struct {
+			pg         c26Prog
+			path, in   string
+			codeA      string
+			outA, outB string
+		}
+
+		var lruns []listRun
+
+		hostA, hostB := la.C26AddListing(rand.New(rand.NewSource(seed+1))), lb.C26AddListing(rand.New(rand.NewSource(seed+1)))
+
+		if hostA != "" && strings.TrimPrefix(hostA, la.Base) == strings.TrimPrefix(hostB, lb.Base) {
+			// the planted directory, plus up to two more inside directories that hold symlinks
+			ldirs := []string{hostA}
+
+			for _, i := range r.Perm(len(la.Dirs)) {
+				if d := la.Dirs[i]; d != hostA && len(ldirs) < 3 {
+					if lk, _ := c26EscapingEntries(la, d); len(lk) > 0 {
+						ldirs = append(ldirs, d)
+					}
+				}
+			}
+
+			spell := func(rel string) string {
+				switch r.Intn(4) {
+				case 0:
+					return "/" + rel
+				case 1:
+					return la.Root + "/" + rel
+				case 2:
+					return "./" + rel + "/"
+				default:
+					return rel
+				}
+			}
+
+			add := func(pg c26Prog, path string) {
+				mk := func(l *verifh.C26Layout) string {
+					c := strings.ReplaceAll(pg.code, "%P", strconv.Quote(strings.ReplaceAll(path, la.Base, l.Base)))
+
+					return strings.ReplaceAll(c, "%T", c26Stamp)
+				}
+
+				lruns = append(lruns, listRun{pg: pg, path: path, codeA: mk(la), outA: run(la, mk(la)), outB: run(lb, mk(lb)),
+					in: fmt.Sprintf("fn=%s program=%q layout=%q root=%q", pg.fn, mk(la), la.Line(), la.Root)})
+			}
+
+			for di, d := range ldirs {
+				rel, _ := filepath.Rel(la.PhysRoot, d)
+				links, esc := c26EscapingEntries(la, d)
+				stats.Inc("listing_dirs")
+				stats.Add("listing_entries_links", len(links))
+				stats.Add("listing_entries_escaping", esc)
+
+				for _, pg := range c26ListDir {
+					if pg.fn == "io.Expand" && !(c26ExpandSafe(la, rel) && c26ExpandSafe(lb, rel)) {
+						stats.Inc("expand_skipped_cyclic")
+
+						continue
+					}
+
+					add(pg, spell(rel))
+				}
+
+				// the entries themselves as path arguments (clamped by the helper when they lead out)
+				r.Shuffle(len(links), func(i, j int) { links[i], links[j] = links[j], links[i] })
+
+				for i, name := range links {
+					if i >= 3-di {
+						break
+					}
+
+					add(c26ListChild[r.Intn(len(c26ListChild))], spell(filepath.Join(rel, name)))
+				}
+			}
+
+			// same layout, another outside world
+			la.C26MutateOutside()
+
+			for _, x := range lruns {
+				out2 := run(la, x.codeA)
+
+				stats.Inc("programs")
+				stats.Inc("listing_programs")
+				stats.Inc("fn:" + x.pg.fn)
+				stats.Sample(map[string]string{"program": x.codeA, "root": la.Root, "output": x.outA})
+
+				switch {
+				case strings.Contains(x.outA+out2, "CANARY-") || strings.Contains(x.outA+out2, "kname-w") || strings.Contains(x.outA+out2, "more-w1"):
+					fails.Write(verifh.Failure{Class: c26Class(x.pg.fn), What: "a sandboxed program printed canary data that exists only outside the root",
+						Input: x.in, Got: x.outA + "\n-- after the outside changed --\n" + out2})
+				case c26StampRE.ReplaceAllString(x.outA, "") != c26StampRE.ReplaceAllString(x.outB, ""):
+					fails.Write(verifh.Failure{Class: c26Class(x.pg.fn), What: "a listing taken inside the root depends on the world outside it (entry metadata / names leak; twin layout with another outside world)",
+						Input: x.in, Got: x.outA, Want: x.outB})
+				case x.outA != out2:
+					fails.Write(verifh.Failure{Class: c26Class(x.pg.fn), What: "a listing taken inside the root changed when only the world outside it was changed (entry metadata / names leak; sizes, modes, times, types and existence of outside link targets were altered in place)",
+						Input: x.in, Got: out2, Want: x.outA})
+				}
+			}
+		} else if hostA != "" {
+			t.Fatalf("twin layouts diverged: %s / %s", hostA, hostB)
+		}
 
 		snapA, snapB := la.C26Snapshot(), lb.C26Snapshot()
 
